@@ -43,9 +43,10 @@ impl BytesPartialDecoderTraits for ByteIntervalPartialDecoder {
         let byte_ranges: Vec<ByteRange> = byte_ranges
             .iter()
             .map(|byte_range| match byte_range {
-                ByteRange::FromStart(offset, None) => {
-                    ByteRange::FromStart(self.byte_offset + offset, Some(self.byte_length))
-                }
+                ByteRange::FromStart(offset, None) => ByteRange::FromStart(
+                    self.byte_offset + offset,
+                    Some(self.byte_length.saturating_sub(*offset)),
+                ),
                 ByteRange::FromStart(offset, Some(length)) => {
                     ByteRange::FromStart(self.byte_offset + offset, Some(*length))
                 }
@@ -96,9 +97,10 @@ impl AsyncBytesPartialDecoderTraits for AsyncByteIntervalPartialDecoder {
         let byte_ranges: Vec<ByteRange> = byte_ranges
             .iter()
             .map(|byte_range| match byte_range {
-                ByteRange::FromStart(offset, None) => {
-                    ByteRange::FromStart(self.byte_offset + offset, Some(self.byte_length))
-                }
+                ByteRange::FromStart(offset, None) => ByteRange::FromStart(
+                    self.byte_offset + offset,
+                    Some(self.byte_length.saturating_sub(*offset)),
+                ),
                 ByteRange::FromStart(offset, Some(length)) => {
                     ByteRange::FromStart(self.byte_offset + offset, Some(*length))
                 }
